@@ -42,20 +42,20 @@ package xmpp
 // the id and the type of a stanza are its attributes of these names in no
 // namespace: a prefixed attribute of some other namespace (x:id, x:type) is
 // neither; both are found whenever they are present
-//@   ensures[C07] result0 >= 0 ==> unq(attrs[result0], "id") && result2 == attrs[result0].Value
-//@   ensures[C07] result1 >= 0 ==> unq(attrs[result1], "type") && result3 == attrs[result1].Value
-//@   ensures[C07] result0 == -1 ==> result2 == ""
-//@   ensures[C07] result1 == -1 ==> result3 == ""
-//@   ensures[C07] (exists k int :: 0 <= k && k < len(attrs) && unq(attrs[k], "id")) ==> result0 >= 0
-//@   ensures[C07] (exists k int :: 0 <= k && k < len(attrs) && unq(attrs[k], "type")) ==> result1 >= 0
+//@   ensures[C05,C07] result0 >= 0 ==> unq(attrs[result0], "id") && result2 == attrs[result0].Value
+//@   ensures[C05,C07] result1 >= 0 ==> unq(attrs[result1], "type") && result3 == attrs[result1].Value
+//@   ensures[C05,C07] result0 == -1 ==> result2 == ""
+//@   ensures[C05,C07] result1 == -1 ==> result3 == ""
+//@   ensures[C05,C07] (exists k int :: 0 <= k && k < len(attrs) && unq(attrs[k], "id")) ==> result0 >= 0
+//@   ensures[C05,C07] (exists k int :: 0 <= k && k < len(attrs) && unq(attrs[k], "type")) ==> result1 >= 0
 //@   loop 1
 //@     invariant -1 <= idIdx && idIdx < len(attrs) && -1 <= typIdx && typIdx < len(attrs)
-//@     invariant[C07] idIdx >= 0 ==> unq(attrs[idIdx], "id") && id == attrs[idIdx].Value
-//@     invariant[C07] typIdx >= 0 ==> unq(attrs[typIdx], "type") && typ == attrs[typIdx].Value
-//@     invariant[C07] idIdx == -1 ==> id == ""
-//@     invariant[C07] typIdx == -1 ==> typ == ""
-//@     invariant[C07] (exists k int :: 0 <= k && k <= rangeindex && unq(attrs[k], "id")) ==> idIdx >= 0
-//@     invariant[C07] (exists k int :: 0 <= k && k <= rangeindex && unq(attrs[k], "type")) ==> typIdx >= 0
+//@     invariant[C05,C07] idIdx >= 0 ==> unq(attrs[idIdx], "id") && id == attrs[idIdx].Value
+//@     invariant[C05,C07] typIdx >= 0 ==> unq(attrs[typIdx], "type") && typ == attrs[typIdx].Value
+//@     invariant[C05,C07] idIdx == -1 ==> id == ""
+//@     invariant[C05,C07] typIdx == -1 ==> typ == ""
+//@     invariant[C05,C07] (exists k int :: 0 <= k && k <= rangeindex && unq(attrs[k], "id")) ==> idIdx >= 0
+//@     invariant[C05,C07] (exists k int :: 0 <= k && k <= rangeindex && unq(attrs[k], "type")) ==> typIdx >= 0
 
 // ---------------------------------------------------------------------------
 // C03: the authenticated bit is only set by a completed, accepted exchange
@@ -1008,3 +1008,23 @@ package xmpp
 //@   cancellable[C04]
 //@   callsite (net.Conn).SetWriteDeadline#1
 //@     assert[C04] arg0 == conn && arg1 == aLongTimeAgo
+
+// C05: a tracked presence, message or IQ goes out with a non-empty id: the one
+// it came with, or a generated one stored in its own (unqualified) id attribute,
+// appended if missing; the id the waiter is registered under is the id on the
+// wire.
+//@ func (*Session).SendPresence
+//@   callsite (*Session).sendResp#1
+//@     assert[C05] arg2 != "" && (exists k int :: 0 <= k && k < len(arg4.Attr) && unq(arg4.Attr[k], "id") && arg4.Attr[k].Value == arg2)
+//@   callsite foreign#*
+//@     preserves start.Attr
+//@ func (*Session).SendMessage
+//@   callsite (*Session).sendResp#1
+//@     assert[C05] arg2 != "" && (exists k int :: 0 <= k && k < len(arg4.Attr) && unq(arg4.Attr[k], "id") && arg4.Attr[k].Value == arg2)
+//@   callsite foreign#*
+//@     preserves start.Attr
+//@ func (*Session).SendIQ
+//@   callsite (*Session).sendResp#1
+//@     assert[C05] arg2 != "" && (exists k int :: 0 <= k && k < len(arg4.Attr) && unq(arg4.Attr[k], "id") && arg4.Attr[k].Value == arg2)
+//@   callsite foreign#*
+//@     preserves start.Attr
